@@ -90,7 +90,7 @@ func c11Violation(idx []int, sep string, mi int, cfgs []Cfg) core.Violation {
 }
 
 func c11Run(c *core.Ctx) {
-	processWarmup()
+	processWarmup(c)
 	n := 4
 	if c.Thorough() {
 		n = 5
